@@ -613,6 +613,10 @@ class Scores:
     ):
         scores = scores.astype(float)  # Otherwise we can get problems with nextafter
 
+        # The upper special case has to be decided on the requested ratio, i.e., before
+        # the shift below, otherwise a target of 1.0 is never recognised.
+        is_max = target_ratio >= 1.0
+
         if not left_continuous:
             min_ratio = 1.0 / len(scores)
             target_ratio = target_ratio - min_ratio
@@ -636,7 +640,7 @@ class Scores:
 
         # Special cases of TPR <= 0. and TPR >= 1.
         threshold[target_ratio <= 0.0] = np.nextafter(scores[0], -np.inf)
-        threshold[target_ratio >= 1.0] = np.nextafter(scores[-1], np.inf)
+        threshold[is_max] = np.nextafter(scores[-1], np.inf)
 
         return threshold
 
